@@ -1807,7 +1807,17 @@ class Evaluator:
         if isinstance(s, ast.For):
             self.bind_target(s.target, App("elem", (it,), s.iter), sub, fr)
         sub.conds = list(st.conds) + [App("inloop", (it,), s)]
+        body_base = sub.copy()
         fall, ex = self.exec_block(s.body, sub, fr)
+        # the state an iteration ends in: the fall-through state joined with the states of the `continue` exits (a `continue` under a
+        # guard leaves the carried values as they were on that path - `if not isinstance(k, str): continue` guards everything below it)
+        iter_end = fall
+        conts = [State(x.env, x.heap, x.effects, x.conds) for x in ex if x.kind == "continue"]
+        if conts:
+            try:
+                iter_end = self._merge_states(([fall] if fall is not None else []) + conts, body_base, s)
+            except (AnalysisError, IndexError, AttributeError):
+                iter_end = fall
         exits = []
         alts = [list(fall.effects[base_e:])] if fall is not None else []
         for x in ex:
@@ -1826,7 +1836,7 @@ class Evaluator:
                 k += 1
             body_eff = list(alts[0][:k]) + [App("eff:alts", [App("seq", a[k:]) for a in alts], s)]
         out = st.copy()
-        final_env = fall.env if fall is not None else sub.env
+        final_env = iter_end.env if iter_end is not None else sub.env
         # the values the loop carries from one iteration to the next (per-iteration update terms over loopvar(...)): kept with the loop
         # so that a term can be evaluated on concrete data (sa.teval folds them over the items)
         carried = App("carried", [App("kv", (Const(n), final_env.get(n, Sym("undef:" + n)))) for n in sorted(assigned)
@@ -1837,7 +1847,7 @@ class Evaluator:
                 out.env[n] = App("elem", (it,), s.iter)
             else:
                 out.env[n] = App("loopout", (Const(n), Const(getattr(s, "lineno", 0)), final_env.get(n, Sym("undef:" + n))))
-        final_heap = fall.heap if fall is not None else sub.heap
+        final_heap = iter_end.heap if iter_end is not None else sub.heap
         for k, v in final_heap.items():
             if st.heap.get(k) != v:
                 out.heap[k] = App("loopout", (Const(k[1]), Const(getattr(s, "lineno", 0)), v))
